@@ -737,6 +737,51 @@ def eval_dlaw(cx, c, ni, o, mode, seed, feat, r):
             cx.fail(COMP, DLAW_TEXT[k] + " [opts %d mode %d]" % (o, mode), dup_payload(c, "dlaw", k, v[k], ni, o, mode, seed, feat))
 
 
+def process_dupinto(cx, schemas, cases, tag, rng, per_pair):
+    """lyd_dup_single / lyd_dup_siblings (and *_to_ctx) of children of a top-level node of the SOURCE tree into the top-level node
+    of the same schema in the TARGET tree — a caller-supplied parent that already has children (populated (leaf-)lists, leaves,
+    containers): lyd_dup_r -> lyd_insert_node into the parent, the first_llist fast path; whole target tree vs Merge.dupInto."""
+    lines, idx = [], {}
+    for k, c in enumerate(cases):
+        if c.t == "-" or c.src == "-":
+            continue
+        d = tg.hx(c.s.dsl())
+        snodes, spar = flat(tg.untok(c.s, c.src))
+        tops = tg.untok(c.s, c.t)
+        cand = [(ni, n) for ni, (n, _) in enumerate(snodes) if spar[id(n)] is not None and spar[id(spar[id(n)])] is None and n.sn.kind != "key"]
+        for j in range(per_pair):
+            if not cand:
+                break
+            ni, n = rng.choice(cand)
+            psn = spar[id(n)].sn
+            pis = [pi for pi, t in enumerate(tops) if t.sn is psn]
+            if not pis:
+                continue
+            o = rng.choice([x for x in DUP_OPTS if not x & D_WITH_PARENTS])
+            mode = rng.randrange(4)
+            i = "p%s%d.%d" % (tag, k, j)
+            lines.append("%s %s dupinto %s %s %d %d %d %s %d" % (i, COMP, d, c.src, ni, o, mode, c.t, rng.choice(pis)))
+            idx[i] = (c, ni, o, mode, len(tops[pis[0]].kids))
+    ri, crashes = run_impl(cx, schemas, lines)
+    rm = run_model(cx, schemas, lines)
+    crash_ids = {c.get("id"): c for c in crashes}
+    for l in lines:
+        i = l.split()[0]
+        c, ni, o, mode, nk = idx[i]
+        a, b = ri.get(i, ["err", "NoReply"]), rm.get(i, ["err", "NoReply"])
+        if a[:2] == ["err", "NotRun"]:
+            continue
+        cx.count(("dupinto", c.s.name, c.src, c.t, ni, o, mode), a[0] == "ok", "merge:dupinto:mode%d:%s:%s" % (mode, "populated" if nk else "empty", a[0] if a[0] == "ok" else a[1]))
+        if i in crash_ids:
+            cx.fail(COMP, "harness aborted in lyd_dup into a parent (%s)" % sanitizer_line(crash_ids[i].get("stderr", "")),
+                    dup_payload(c, "dupinto", "crash", "crash", ni, o, mode, None, [], crash_ids[i].get("stderr", "")))
+            continue
+        if a != b:
+            if a[:2] == ["err", "Enotfound"] and b[0] == "ok" and mode >= 2:
+                continue
+            cx.disagree(COMP, l[:20000], a, b)
+
+
 def dup_payload(c, op, law, verdict, ni, o, mode, seed, feat, stderr=None):
     p = {"op": op, "law": law, "verdict": verdict, "opts": o, "mode": mode, "node": ni, "seed": seed, "features": feat, "variant": c.variant,
          "schema_dsl": c.s.dsl().decode(), "schema_yang": c.s.yang(), "T": c.t, "T_text": tg.pretty(c.s, tg.untok(c.s, c.t))[:3000]}
@@ -870,6 +915,7 @@ def run(cx):
         process_merge(cx, sch, chunk, "r%d" % lo, cx.sub_rng("merge%d" % lo), all_opts=False, laws=cx.n(1.15, 1.5), budget=budget)
         process_indep(cx, sch, chunk, "r%d" % lo, cx.sub_rng("indep%d" % lo), per_case=1, budget=budget)
         process_dup(cx, sch, chunk, "r%d" % lo, cx.sub_rng("dup%d" % lo), per_tree=cx.n(2, 3), laws_per_tree=1)
+        process_dupinto(cx, sch, chunk, "r%d" % lo, cx.sub_rng("dupinto%d" % lo), per_pair=cx.n(1, 3))
     # exhaustive small cases
     s, ecases, sizes = exhaustive_cases(cx)
     ecases = build_trees(cx, [s], ecases)
